@@ -244,11 +244,16 @@ func (c *Ctx) rulesC01net() {
 		}
 	}
 	n := 0
-	for i, w := range writesOfFieldIn(uc, fC) {
+	var cw, tw []fieldWrite
+	for _, hf := range c.hostedFns(uc) {
+		cw = append(cw, writesOfFieldIn(hf, fC)...)
+		tw = append(tw, writesOfFieldIn(hf, fT)...)
+	}
+	for i, w := range cw {
 		n++
 		key := fmt.Sprintf("updateClock: machClock write%s covers every state", nth(i))
 		if w.Kind != "mapupdate" {
-			if w.Kind == "assign" && now != nil && flowsFrom(w.Val, func(v ssa.Value) bool { return v == now }) {
+			if w.Kind == "assign" && now != nil && flowsFrom(w.Val, func(v ssa.Value) bool { return c.hostedArg(v, uc) == now }) {
 				c.ok("C01.net", key, w.Instr.Pos(), "whole map rebuilt from the new time slice")
 				continue
 			}
@@ -258,7 +263,7 @@ func (c *Ctx) rulesC01net() {
 		good := false
 		if ld, ok := w.Val.(*ssa.UnOp); ok && ld.Op == token.MUL {
 			if ia, ok := ld.X.(*ssa.IndexAddr); ok {
-				full := ia.X == now || loadOfField(ia.X) == fT
+				full := (now != nil && c.hostedArg(ia.X, uc) == now) || loadOfField(ia.X) == fT
 				if bo, ok := ia.Index.(*ssa.BinOp); ok && full {
 					if ph, ok := bo.X.(*ssa.Phi); ok && ph.Comment == "rangeindex" {
 						good = true
@@ -272,6 +277,36 @@ func (c *Ctx) rulesC01net() {
 		c.undecided("C01.net: no write to machClock in updateClock")
 	}
 	// machTime and machClock are replaced together
-	wt := len(writesOfFieldIn(uc, fT)) > 0
+	wt := len(tw) > 0
 	c.check(wt, "C01.net", "updateClock stores machTime", uc.Pos(), "machClock refreshed without machTime")
+}
+
+// hostedArg maps a parameter of a private single-caller helper hosted by root
+// back to the value passed at its only call site (repeatedly); other values
+// are returned unchanged.
+func (c *Ctx) hostedArg(v ssa.Value, root *ssa.Function) ssa.Value {
+	for d := 0; d < 4; d++ {
+		p, ok := v.(*ssa.Parameter)
+		if !ok || p.Parent() == root || !c.hostedBy(p.Parent(), root) {
+			return v
+		}
+		sites, vals := c.allCallersOf(p.Parent())
+		if len(sites) != 1 || len(vals) != 0 {
+			return v
+		}
+		ci, ok := sites[0].Instr.(ssa.CallInstruction)
+		if !ok {
+			return v
+		}
+		args := ci.Common().Args
+		if len(args) != len(p.Parent().Params) {
+			return v
+		}
+		for i, q := range p.Parent().Params {
+			if q == p {
+				v = args[i]
+			}
+		}
+	}
+	return v
 }
